@@ -102,7 +102,19 @@ def containers(m):
             out[id(link)] = 'Link of %s' % ass.rel_id
             for ys in link.values():
                 out[id(ys)] = 'link set of %s' % ass.rel_id
-    return out
+    # sharing an immutable object (a tuple, a frozenset, a string) between builds is harmless
+    return dict((i, d) for i, d in out.items() if i not in IMMUTABLE_IDS)
+
+
+IMMUTABLE_IDS = set()
+
+
+def note_immutables(m):
+    for mc in m.metaclasses.values():
+        for name in ('attributes', 'storage', 'indices', 'links', 'referential_attributes', 'identifying_attributes'):
+            obj = getattr(mc, name)
+            if isinstance(obj, (tuple, frozenset, str, bytes)):
+                IMMUTABLE_IDS.add(id(obj))
 
 
 def mutate(ctx, rng, m):
@@ -225,6 +237,7 @@ def run_history(ctx, rng):
                              'build number %d differs from the build of a fresh loader with the same '
                              'inputs: %s' % (len(models) + 1, first_diff(ref, obs)))
             # identity sweep against every earlier build
+            note_immutables(m)
             mine = containers(m)
             for other, _ in models:
                 ctx.hit('IdentitySweep.pairs')
